@@ -78,6 +78,8 @@ fn main() {
     };
     match driver.as_str() {
         "supply" => drivers::supply::run(&mut ctx),
+        "big" => drivers::big::run(&mut ctx),
+        "extreme" => drivers::big::run_extreme(&mut ctx),
         "eta" => drivers::arrival::run_eta(&mut ctx),
         "steps" => drivers::arrival::run_steps(&mut ctx),
         "cost" => drivers::cost::run_cost(&mut ctx),
